@@ -2652,7 +2652,8 @@ tfGetDomSelf(TForm tf)
 
 	tf = tfDefineeType(tf);
 
-	if (tfHasSelf(tf) && tfIsId(tf) && symeExtension(tfIdSyme(tf))) {
+	/* (an identifier that was given no meaning - an error reported elsewhere - has no syme) */
+	if (tfHasSelf(tf) && tfIsId(tf) && tfIdSyme(tf) && symeExtension(tfIdSyme(tf))) {
 		return tfGetDomSelf(tfFrSyme(stabFile(), symeExtensionFull(tfIdSyme(tf))));
 	}
 
